@@ -4,6 +4,7 @@
 //! by happens-before (vector clocks over launch / counter RMW / load / send / recv).
 use checks::sources::{self, Src};
 use serde_json::json;
+use std::collections::BTreeMap;
 use std::sync::{Arc, atomic::{AtomicUsize, Ordering}};
 use vcore::{Reporter, Tier};
 use vrt::{ExploreCfg, ExploreStats, Job, RunCfg};
@@ -87,6 +88,7 @@ fn main() {
         replay(p);
     }
     let mut rep = Reporter::new("C02", "model_checking", &args);
+    let mut all_exhaustive_model = true;
     let fam: Vec<Src> = sources::family();
     let big = 64usize;
     let mut plans = vec![];
@@ -128,6 +130,77 @@ fn main() {
         }
     }
     let sc = vcore::Scratch::new("c02");
+    // ---------------------------------------------------------------- the abstract scheduler model (vrt::absmodel)
+    // extracted from a recorded default-schedule execution of each source, explored without a deviation bound
+    let model_cap: usize = std::env::var("C02_MODEL_CAP").ok().and_then(|s| s.parse().ok()).unwrap_or(args.tier.pick(3_000_000, 40_000_000));
+    let mut model_sources: Vec<usize> = plans.iter().map(|p| p.src).collect();
+    model_sources.sort();
+    model_sources.dedup();
+    model_sources.retain(|s| !fam[*s].name.starts_with('K'));
+    let mut model_reports = vec![];
+    let mut pending_model_violations: Vec<(&str, String, String, serde_json::Value)> = vec![];
+    // sources on which some explored execution showed a handle_success effect that differs from the reference run's
+    let mut effect_variants: BTreeMap<&str, Vec<String>> = BTreeMap::new();
+    let (mut model_states, mut model_transitions) = (0usize, 0usize);
+    for si in &model_sources {
+        let src = &fam[*si];
+        let dir = sc.join(&format!("m{si}"));
+        let path = src.design.write_source(&dir).unwrap_or_else(|e| vcore::machinery_error(&format!("write source: {e}")));
+        let ir_root = src.emit_ir.then(|| dir.join("irs"));
+        let job = make_job(path, src.opts.clone(), ir_root);
+        let base = RunCfg { k: 64, main_last: false, dmax: 0, harvest: false };
+        let t = std::time::Instant::now();
+        let r = vrt::run_recorded(&job, &base, &[]);
+        if !r.outcome.as_deref().is_some_and(|o| o.starts_with("ok:")) {
+            // a source that fails on the default schedule is reported by the exploration below
+            continue;
+        }
+        let inst = vrt::absmodel::extract(&r.log).unwrap_or_else(|e| vcore::machinery_error(&format!("{}: model extraction: {e}", src.name)));
+        if let Err(e) = vrt::absmodel::conform(&inst, &r.log, true) {
+            vcore::machinery_error(&format!("{}: the reference run does not conform to the model extracted from it: {e}", src.name));
+        }
+        // second base order: a different complete execution must conform too
+        let r2 = vrt::run_recorded(&job, &RunCfg { main_last: true, ..base.clone() }, &[]);
+        if r2.outcome.as_deref().is_some_and(|o| o.starts_with("ok:")) {
+            if let Err(e) = vrt::absmodel::conform(&inst, &r2.log, true) {
+                rep.violation(
+                    &format!("model-nonconformance:{}", src.name),
+                    &format!("the main-last default schedule does not conform to the scheduler model extracted from the main-first one: {e}"),
+                    json!({"source": src.name, "design": src.design, "opts": src.opts, "emit_ir": src.emit_ir, "k": 64, "main_last": true, "d": 0, "choices": []}),
+                );
+            }
+        }
+        if std::env::var("C02_MODEL_DUMP").is_ok() {
+            eprintln!("{}", inst.describe());
+        }
+        let m = vrt::absmodel::explore(&inst, model_cap);
+        // reported after the implementation exploration: only if every explored execution conforms to the model
+        for (v, trace) in &m.violations {
+            let class = v.split(':').next().unwrap_or("violation");
+            let first = v.split(" (").next().unwrap_or(v);
+            pending_model_violations.push((
+                src.name,
+                format!("model:{}:{}:{}", src.name, class, short(first)),
+                format!("abstract scheduler model (all interleavings): {v}; model trace: {}", trace.join(" ; ")),
+                json!({"source": src.name, "design": src.design, "opts": src.opts, "emit_ir": src.emit_ir, "model_trace": trace, "kind": "model"}),
+            ));
+        }
+        if m.capped {
+            all_exhaustive_model = false;
+        }
+        model_states += m.states;
+        model_transitions += m.transitions;
+        eprintln!("[C02] model {}: jobs {} conflict pairs {} states {} transitions {} terminal {} depth {} in-flight<= {} capped {} violations {} ({:.1}s)",
+            src.name, m.jobs, m.conflict_pairs, m.states, m.transitions, m.terminal_states, m.max_depth, m.max_jobs_in_flight, m.capped, m.violations.len(), t.elapsed().as_secs_f64());
+        model_reports.push(json!({"source": src.name, "jobs": m.jobs, "items": m.items, "conflict_pairs_of_the_reference_run": m.conflict_pairs,
+            "states": m.states, "transitions": m.transitions, "terminal_states": m.terminal_states, "max_depth": m.max_depth,
+            "max_jobs_in_flight": m.max_jobs_in_flight, "capped_at": if m.capped { Some(model_cap) } else { None }, "violations": m.violations.len(),
+            "free_jobs": m.free_jobs, "explorations": m.explorations, "pairs_forced_by_the_text_of_the_accesses": m.pairs_forced_by_text,
+            "pairs_with_a_dynamic_first_job": m.pairs_dynamic, "pairs_explored_with_a_lagging_static_job": m.pairs_needing_a_lagging_static_job,
+            "scheduler_thread_accesses_not_ordered_with_a_job": m.scheduler_access_notes.iter().map(|(v, _)| v.clone()).collect::<Vec<_>>()}));
+    }
+    // SAFETY: single-threaded here; the exploration's worker processes inherit it
+    unsafe { std::env::set_var("VERIF_VRT_CONFORM", "1") };
     let mut totals = ExploreStats::default();
     let mut per_plan = vec![];
     let mut samples = vec![];
@@ -178,6 +251,23 @@ fn main() {
                 rep.violation(&format!("deadlock:{}", src.name), &format!("no enabled actor: {}", short(w)), mk_replay(ch));
                 bad = true;
             }
+            for (e, ch) in &st.conform_errors {
+                if e.starts_with("effect-variant:") {
+                    // the model's premise (the effect of handle_success(X) is a function of X) does not hold for this
+                    // source: the model is not used for it; recorded, not judged (DESIGN.md §2.2b)
+                    let v = effect_variants.entry(src.name).or_default();
+                    if v.len() < 4 && !v.contains(e) {
+                        v.push(e.clone());
+                    }
+                    continue;
+                }
+                rep.violation(
+                    &format!("model-nonconformance:{}:{}", src.name, short(e)),
+                    &format!("an explored execution does not conform to the abstract scheduler model extracted from the reference run: {e}"),
+                    mk_replay(ch),
+                );
+                bad = true;
+            }
             if !st.protocol_errors.is_empty() {
                 vcore::machinery_error(&format!("worker protocol drift (hooks no longer describe the worker closure): {:?}", st.protocol_errors.keys().next()));
             }
@@ -201,6 +291,7 @@ fn main() {
         totals.states += plan_stats.states;
         totals.transitions += plan_stats.transitions;
         totals.window_execs += plan_stats.window_execs;
+        totals.conformed += plan_stats.conformed;
         totals.window_loads += plan_stats.window_loads;
         totals.passthrough_loads += plan_stats.passthrough_loads;
         totals.yielding_loads += plan_stats.yielding_loads;
@@ -227,8 +318,18 @@ fn main() {
         eprintln!("[C02] {} k={} main_last={} d<={:?}: execs {} states {} transitions {} window_execs {} ({:.1}s)",
             src.name, plan.k, plan.main_last, completed_d, plan_stats.execs, plan_stats.states, plan_stats.transitions, plan_stats.window_execs, t0.elapsed().as_secs_f64());
     }
-    rep.set("states", totals.states);
-    rep.set("transitions", totals.transitions);
+    for (name, key, what, replay) in pending_model_violations {
+        if !effect_variants.contains_key(name) {
+            rep.violation(&key, &what, replay);
+        }
+    }
+    rep.set("model_not_used_for", json!(effect_variants));
+    rep.set("states", totals.states + model_states);
+    rep.set("transitions", totals.transitions + model_transitions);
+    rep.set("implementation_exploration", json!({"states": totals.states, "transitions": totals.transitions, "executions": totals.execs,
+        "executions_replayed_against_the_model": totals.conformed}));
+    rep.set("abstract_model", json!({"sources": model_reports, "states": model_states, "transitions": model_transitions, "exhaustive": all_exhaustive_model,
+        "what": "per source: scheduler model extracted from a recorded execution (jobs, counters, accesses at insertion, effect of every handle_success, conflict order of the reference run), every interleaving of Scan / Finish / Handle explored breadth-first; every execution of the implementation exploration is replayed against it"}));
     rep.set("traces_validated_against_impl", totals.execs);
     rep.set("evaluations", totals.execs);
     rep.set("executions_complete", totals.complete);
@@ -238,7 +339,7 @@ fn main() {
     rep.set("distinct_outcomes", json!(totals.outcomes));
     rep.set("plans", per_plan);
     rep.set("samples", samples);
-    rep.set("exhaustive", all_exhaustive);
+    rep.set("exhaustive", all_exhaustive && all_exhaustive_model);
     rep.set("bound", "all schedules within d demotions of a strict-priority scheduler (two base orders), per plan; executions run to completion or are abandoned at a state already expanded with at least the same remaining budget");
     rep.assume("sequentially consistent exploration (counters are AcqRel/Acquire); rayon's work stealing replaced by a k-slot pool model; no preemption inside Work::exec (happens-before is judged on launch/finish edges)");
     rep.assume("every explored trace is an execution of the real Workload::exec under the controlled scheduler (no separate model), so traces_validated_against_impl = executions");
